@@ -282,6 +282,36 @@ def stage_lib(ctx, inputs, libdir, threads, reps):
     return res, None
 
 
+def stage_history(ctx, inputs, lib, libdir, stats):
+    """`independent of process, thread`: every input generated by ONE long-lived thread after all kinds of other inputs
+    (three orders) must give what a fresh thread gives (lib_runner hist mode).  Inputs that are nondeterministic on
+    fresh threads already (a recorded class) are left out."""
+    ok_ids = {i for i, l in lib.items() if l["ndistinct"] == 1}
+    lines = [f'{i["id"]}\t{i["parser"]}\t{i["path"]}\tDev' for i in inputs
+             if i["parser"] in PARSERS and i["text"] is not None and i["id"] in ok_ids]
+    p = os.path.join(libdir, "hist_list.txt")
+    open(p, "w").write("\n".join(lines) + "\n")
+    rc, out = vlib.run([vlib.bin_path("lib_runner"), p, libdir, "hist", str(ctx.seed)], timeout=1500, env={"RUST_BACKTRACE": "0"})
+    if rc != 0 or "HSUMMARY" not in out:
+        return "lib_runner hist mode failed: " + out[-800:]
+    byid = {i["id"]: i for i in inputs}
+    for line in out.splitlines():
+        f = line.split("\t")
+        if f[0] == "HSUMMARY":
+            stats["history_runs"], stats["history_differences"] = int(f[1]), int(f[2])
+        elif f[0] == "H" and len(f) == 5:
+            i, prev = byid[f[1]], byid.get(f[4])
+            a = open(os.path.join(libdir, f[1] + ".fresh"), "rb").read()
+            b = open(os.path.join(libdir, f[1] + ".hist"), "rb").read()
+            report(ctx, "history-dependent", {
+                "what": "the output for an input depends on what the same thread generated before it (fresh thread vs a thread that "
+                        "has generated other inputs): generation is not a function of its input",
+                "failing_input": {"name": i["name"], "syntax": i["syntax"], "text": (i["text"] or "")[:3000]},
+                "generated_just_before": None if prev is None else {"name": prev["name"], "syntax": prev["syntax"], "text": (prev["text"] or "")[:3000]},
+                "pass_and_position": [int(f[2]), int(f[3])], "first_difference": first_difference(a, b)})
+    return None
+
+
 STALE = b"// stale content of an earlier run\n" * 40000      # 1.4 MB: longer than any output generated here
 
 
@@ -891,6 +921,11 @@ def core(ctx, inputs, adefs, K, K_many, threads, reps, stats, with_probe=True):
         return err
     stats["lib_runs"] = sum(l["nruns"] for l in lib.values())
     ctx.log(f"B library: {len(lib)} inputs x {threads} threads x {reps} reps ({round(time.time() - t, 1)} s)")
+    t = time.time()
+    err = stage_history(ctx, inputs, lib, os.path.join(ctx.work, "lib"), stats)
+    if err:
+        return err
+    ctx.log(f"B' history: {stats.get('history_runs')} runs on one long-lived thread, {stats.get('history_differences')} differ from a fresh thread ({round(time.time() - t, 1)} s)")
     t = time.time()
     stats["cli_runs"] = stage_cli(ctx, inputs, os.path.join(ctx.work, "out"), K, K_many)
     ctx.log(f"C cli: {stats['cli_runs']} process runs ({round(time.time() - t, 1)} s)")
